@@ -19,6 +19,7 @@ import time
 VERIF = os.path.dirname(os.path.dirname(os.path.abspath(__file__)))
 REPO = os.environ.get("VERIF_REPO", "/repo")
 SCRATCH_ROOT = os.environ.get("VERIF_SCRATCH", os.path.join(tempfile.gettempdir(), "kverif"))
+ANYHOW_ENV = "anyhow-min"  # harness/env/<dir> patched in for anyhow (anyhow-kani = full crate with backtrace cut; anyhow-min = plain-struct stand-in)
 NSLOTS = int(os.environ.get("VERIF_SLOTS", "12"))
 
 
@@ -147,7 +148,7 @@ def prepare_tree(slot, real_zeroize=False, replay=False):
         raise InfraError("workspace manifest already has a [patch] table")
     man += '\n[patch.crates-io]\nkestrel-crypto = { path = "src/crypto" }\n'
     man += 'ct-codecs = { path = "%s" }\n' % os.path.join(VERIF, "harness", "env", "ct-codecs-kani")
-    man += 'anyhow = { path = "%s" }\n' % os.path.join(VERIF, "harness", "env", "anyhow-kani")
+    man += 'anyhow = { path = "%s" }\n' % os.path.join(VERIF, "harness", "env", os.environ.get("VERIF_ANYHOW", ANYHOW_ENV))
     if not real_zeroize:
         man += 'zeroize = { path = "%s" }\n' % os.path.join(VERIF, "harness", "env", "zeroize-kani")
     with open(ws, "w") as f:
@@ -168,18 +169,34 @@ def prepare_tree(slot, real_zeroize=False, replay=False):
         for fn in files:
             if fn.endswith((".rs", ".toml", ".lock")):
                 rels.append(os.path.relpath(os.path.join(base, fn), tree))
-    hh = hashlib.sha256()
-    hh.update(_sha_tree(tree, rels).encode())
-    for _, _, p in inject_files():
-        with open(p, "rb") as f:
-            hh.update(f.read())
-    for base, dirs, files in os.walk(os.path.join(VERIF, "harness")):
-        for fn in sorted(files):
-            if fn.endswith(".rs"):
-                with open(os.path.join(base, fn), "rb") as f:
+    # One digest per crate under test: a harness in kestrel-crypto is a function of src/crypto (+ workspace manifest,
+    # lock file, environment crates, crypto harness sources) only; cli / ffi harnesses additionally depend on their own
+    # crate. Result reuse (run.py) is keyed by the digest of the harness's crate, so e.g. an edit under src/cli does not
+    # force the crypto harnesses to be re-solved.
+    def crate_digest(crate):
+        skip = {"crypto": ("src/cli/", "src/ffi/"), "cli": ("src/ffi/",), "ffi": ("src/cli/",)}[crate]
+        use = {"crypto": ("crypto",), "cli": ("crypto", "cli"), "ffi": ("crypto", "ffi")}[crate]
+        hh = hashlib.sha256()
+        hh.update(_sha_tree(tree, [r_ for r_ in rels if not r_.replace(os.sep, "/").startswith(skip)]).encode())
+        for c_, _, p_ in inject_files():
+            if c_ in use:
+                with open(p_, "rb") as f:
                     hh.update(f.read())
-    hh.update(b"rz" if real_zeroize else b"kz")
-    digest = hh.hexdigest()
+        # environment crates this crate links: kestrel-crypto / kestrel-ffi only see zeroize; the CLI sees all of them
+        anyhow_dir = os.environ.get("VERIF_ANYHOW", ANYHOW_ENV)
+        envs = ["zeroize-kani"] if crate in ("crypto", "ffi") else ["zeroize-kani", "ct-codecs-kani", anyhow_dir]
+        for env_crate in envs:
+            for base, dirs, files in os.walk(os.path.join(VERIF, "harness", "env", env_crate)):
+                dirs.sort()
+                for fn in sorted(files):
+                    if fn.endswith((".rs", ".toml")):
+                        with open(os.path.join(base, fn), "rb") as f:
+                            hh.update(f.read())
+        hh.update(b"rz" if real_zeroize else b"kz")
+        return hh.hexdigest()
+    digests = {"kestrel-crypto": crate_digest("crypto"), "kestrel-cli": crate_digest("cli"),
+               "kestrel-ffi": crate_digest("ffi")}
+    digest = hashlib.sha256(json.dumps(digests, sort_keys=True).encode()).hexdigest()
     prev = None
     try:
         with open(slot.state) as f:
@@ -195,8 +212,8 @@ def prepare_tree(slot, real_zeroize=False, replay=False):
             os.utime(os.path.join(tree, rel), (now, now))
     os.makedirs(os.path.dirname(slot.state), exist_ok=True)
     with open(slot.state, "w") as f:
-        json.dump({"digest": digest, "at": time.time()}, f)
-    return digest
+        json.dump({"digest": digest, "crates": digests, "at": time.time()}, f)
+    return digest, digests
 
 
 def repo_state():
@@ -243,7 +260,7 @@ def run_cmd(cmd, cwd, env, timeout, mem_gb=None, log=None):
 def kani_env():
     env = dict(os.environ)
     env["CARGO_NET_OFFLINE"] = "true"
-    env["RUSTFLAGS"] = '-Zcrate-attr=recursion_limit="512"'
+    env["RUSTFLAGS"] = '-Zcrate-attr=recursion_limit="8192"'
     env.pop("RUSTUP_TOOLCHAIN", None)
     env["CARGO_TERM_COLOR"] = "never"
     return env
